@@ -40,7 +40,7 @@ for pid in sorted(L):
         'replay_cmd_template': './check %s --replay {path}' % pid,
         'engine': 'tsim',
         'level_claimed': {'category': 'fault_enumeration' if pid == 'C11' else 'exploration', 'text': text, 'design_ref': 'DESIGN.md §' + ref},
-        'level_note': NOTE.get(pid, '') + 'Sampling, not proof. Trusted: SimPy, the harness ledger built from the env.process seam, the fake SHADOW planner (valid plans only), scenario generator bounds (<=6 machines, <=4 observations, <=8 tasks per workflow).',
+        'level_note': NOTE.get(pid, '') + 'Sampling, not proof. Trusted: SimPy, the harness ledger built from the env.process seam, the fake SHADOW planner (valid plans only), scenario generator bounds (mostly <=6 machines, <=5 observations, <=8 tasks per workflow; up to 12 machines, 7 observations, 18 (rarely 40) tasks in 4 % of quick and 25 % of thorough runs); observation names unique; observation durations whole timesteps.',
         'technique': TECH,
     })
 m = {
